@@ -44,10 +44,27 @@ import (
 func init() { engines["sched"] = runSched }
 
 // lockWait tells whether a goroutine's wait reason (from the runtime's stack dump) is "blocked in
-// sync.Mutex.Lock" ("semacquire" in older runtimes).
+// sync.Mutex.Lock".  Nothing looser: "semacquire" is also the reason of a goroutine waiting for the
+// world semaphore (a stack dump or a GC start in progress), which says nothing about the locks of the
+// code under test; a runtime that words the reason differently fails waitReasonWorks and the engines
+// that depend on it are skipped.
 func lockWait(st string) bool {
-	return strings.HasPrefix(st, "sync.Mutex.Lock") || strings.HasPrefix(st, "semacquire")
+	return strings.HasPrefix(st, "sync.Mutex.Lock")
 }
+
+// spinLock protects the controllers' tables.  It is not a sync.Mutex (nor a sync.RWMutex, whose writers
+// queue on one): a goroutine of the code under test that waits for the controller must never show the
+// wait reason by which the engines recognise "blocked on a lock of the code under test".
+type spinLock struct{ v atomic.Int32 }
+
+func (l *spinLock) Lock() {
+	for !l.v.CompareAndSwap(0, 1) {
+		runtime.Gosched()
+	}
+}
+func (l *spinLock) Unlock()  { l.v.Store(0) }
+func (l *spinLock) RLock()   { l.Lock() }
+func (l *spinLock) RUnlock() { l.Unlock() }
 
 // waitReasonWorks checks on a mutex of the harness's own that a goroutine blocked in Lock is reported as such
 // by this Go runtime (the engine's only dependence on the runtime's wording).
@@ -138,7 +155,7 @@ type schedEvent struct {
 }
 
 type schedCtl struct {
-	mu      sync.RWMutex // not a sync.Mutex: its wait reason must differ from the eviction lock's
+	mu      spinLock // not a sync.Mutex: its wait reason must differ from the eviction lock's
 	threads []*schedThread
 	byGoid  map[int64]*schedThread
 	ev      chan schedEvent
